@@ -385,7 +385,7 @@ theorem transformPT_no_dash (src : Bytes) (h : (45 : UInt8) ∉ src) (node : Nat
   have ht := GM.Ext.transform_no_dash src (List.map GM.TableX.toSeg (s.nodes.getD node default).lines)
     (fun l _ => GM.Ext.value_no_dash src l h)
   unfold GM.TableX.transformPT
-  simp only [bind, StateT.bind, GM.Blocks.getNode, pure, Except.pure, Except.bind, StateT.pure]
+  simp only [bind, StateT.bind, GM.Blocks.getNode, GM.Blocks.source, pure, Except.pure, Except.bind, StateT.pure]
   split
   · exact Or.inr rfl
   · simp only [ht]
@@ -604,7 +604,8 @@ theorem inlineTreeX_flags (c1 c2 : XCfg) (src : Bytes) : ∀ n : Inl.Node, lvOK 
     simp only [inlineTreeX, inlineTreesX_flags c1 c2 src ks h]
   | .emphasis lv ks, h => by
     simp only [lvOK, Bool.and_eq_true, decide_eq_true_eq] at h
-    have h0 : (lv == 0) = false := by simp only [beq_eq_false_iff_ne, ne_eq]; omega
+    have h0 : (lv == -3 || lv == -4) = false := by
+      simp only [Bool.or_eq_false_iff, beq_eq_false_iff_ne, ne_eq]; omega
     have h1 : (lv == -1) = false := by simp only [beq_eq_false_iff_ne, ne_eq]; omega
     have h2 : (lv == -2) = false := by simp only [beq_eq_false_iff_ne, ne_eq]; omega
     simp only [inlineTreeX, inlineTreesX_flags c1 c2 src ks h.2, h0, h1, h2, Bool.and_false, Bool.false_eq_true, if_false]
